@@ -419,91 +419,176 @@ class Encoder:
     # -- scalar sub-select -----------------------------------------------------------------------
     def scalar_sub(self, sel: P.Select, scope: Scope) -> SV:
         if sel.union or sel.order or sel.limit is not None or sel.distinct or len(sel.cols) != 1 \
-                or len(sel.frm) != 1 or not isinstance(sel.frm[0].source, str):
+                or not sel.frm or any(not isinstance(f.source, str) for f in sel.frm):
             raise Unsupported('scalar sub-select shape')
         fi = sel.frm[0]
         table = fi.source
-        if table in self.ctes:
+        if any(f.source in self.ctes for f in sel.frm):
             raise Unsupported('scalar sub-select over a CTE')
-        self.db.schema.table(table)
+        for f in sel.frm:
+            self.db.schema.table(f.source)
+        aliases = {f.alias: f.source for f in sel.frm}
         conj = flatten_and(sel.where) if sel.where is not None else []
-        # (1) direct instantiation: <table>.rowid = outer term
-        inner = Scope({fi.alias: ('table', table, None)}, [fi.alias], scope)
-        row = None
-        rest = []
-        for c in conj:
-            if isinstance(c, P.Bin) and c.op == '=':
-                for l, r in ((c.left, c.right), (c.right, c.left)):
-                    if isinstance(l, P.Col) and l.name == 'rowid' and self._refers_inner(l, fi, table) \
-                            and not self._mentions_inner(r, fi, table):
-                        if row is None:
+        for f in sel.frm[1:]:
+            if f.on is not None:
+                conj = flatten_and(f.on) + conj
+
+        def alias_of(col: P.Col):
+            if col.table is not None:
+                return col.table if col.table in aliases else None
+            hits = [a for a, t in aliases.items() if col.name == 'rowid' or self.db.schema.table(t).col(col.name)]
+            return hits[0] if len(hits) == 1 else None
+
+        def inner(e) -> bool:
+            if isinstance(e, P.Col):
+                return alias_of(e) is not None
+            if isinstance(e, P.Bin):
+                return inner(e.left) or inner(e.right)
+            return False
+        # (1) direct instantiation (single table):  <table>.rowid = outer term
+        if len(sel.frm) == 1:
+            row = None
+            rest = []
+            for c in conj:
+                hit = False
+                if isinstance(c, P.Bin) and c.op == '=' and row is None:
+                    for l, r in ((c.left, c.right), (c.right, c.left)):
+                        if isinstance(l, P.Col) and l.name == 'rowid' and alias_of(l) and not inner(r):
                             row = self.expr(r, scope)
+                            hit = True
                             break
-                else:
+                if not hit:
                     rest.append(c)
-                    continue
-                continue
-            rest.append(c)
-        if row is not None:
-            inner.items[fi.alias] = ('table', table, row.z)
-            found = z_and(self.db.in_(table)(row.z), z_not(row.none) if row.none is not None else True,
-                          *[self.cond(c, inner) for c in rest])
-            v = self.expr(sel.cols[0][0], inner)
-            n = z_or(z_not(found), v.none if v.none is not None else False)
-            return SV(v.kind, v.z, z3.simplify(z_bool(n)))
-        # (2) keyed lookup: canonical skolem function of the equality arguments
-        keys = []
-        others = []
+            if row is not None:
+                isc = Scope({fi.alias: ('table', table, row.z)}, [fi.alias], scope)
+                found = z_and(self.db.in_(table)(row.z), z_not(row.none) if row.none is not None else True,
+                              *[self.cond(c, isc) for c in rest])
+                v = self.expr(sel.cols[0][0], isc)
+                n = z_or(z_not(found), v.none if v.none is not None else False)
+                return SV(v.kind, v.z, z3.simplify(z_bool(n)))
+        # (2) keyed lookup(s): equalities (or disjunctions of equalities) per alias, joins by foreign key
+        keys: dict = {a: [] for a in aliases}
+        joins = []      # (main alias, fk col, joined alias)
         for c in conj:
-            ok = False
+            done = False
             if isinstance(c, P.Bin) and c.op == '=':
-                for l, r in ((c.left, c.right), (c.right, c.left)):
-                    if isinstance(l, P.Col) and self._refers_inner(l, fi, table) \
-                            and not self._mentions_inner(r, fi, table):
-                        keys.append((l.name, self.expr(r, scope)))
-                        ok = True
+                l, r = c.left, c.right
+                if isinstance(l, P.Col) and isinstance(r, P.Col) and alias_of(l) and alias_of(r):
+                    for x, y in ((l, r), (r, l)):
+                        if y.name == 'rowid' and x.name != 'rowid':
+                            joins.append((alias_of(x), x.name, alias_of(y)))
+                            done = True
+                            break
+                if not done:
+                    for x, y in ((l, r), (r, l)):
+                        if isinstance(x, P.Col) and alias_of(x) and not inner(y):
+                            keys[alias_of(x)].append((x.name, self.expr(y, scope)))
+                            done = True
+                            break
+            elif isinstance(c, P.Bin) and c.op == 'OR':
+                alts = flatten_or(c)
+                parts = []
+                al = None
+                for a in alts:
+                    ok = False
+                    if isinstance(a, P.Bin) and a.op == '=':
+                        for x, y in ((a.left, a.right), (a.right, a.left)):
+                            if isinstance(x, P.Col) and alias_of(x) and not inner(y):
+                                if al is None or al == alias_of(x):
+                                    al = alias_of(x)
+                                    parts.append((x.name, self.expr(y, scope)))
+                                    ok = True
+                                    break
+                    if not ok:
+                        parts = None
                         break
-            if not ok:
-                others.append(c)
-        if others:
-            raise Unsupported('scalar sub-select with non-equality conditions')
-        keys.sort(key=lambda kv: kv[0])
+                if parts:
+                    keys[al].append(('|'.join(p[0] for p in parts), tuple(p[1] for p in parts)))
+                    done = True
+            if not done:
+                raise Unsupported('scalar sub-select with a condition that is not a key equality')
         resultcol = sel.cols[0][0]
-        if not isinstance(resultcol, P.Col):
+        if not isinstance(resultcol, P.Col) or alias_of(resultcol) != fi.alias:
             raise Unsupported('scalar sub-select result expression')
-        return self.lookup(table, resultcol.name, keys)
+        main_keys = list(keys[fi.alias])
+        for (ma, fk, ja) in joins:
+            if ma != fi.alias:
+                raise Unsupported('scalar sub-select join shape')
+            jk = sorted(keys[ja], key=lambda kv: kv[0])
+            jrow = self.lookup(aliases[ja], 'rowid', jk)
+            main_keys.append((fk, jrow))
+        for a in aliases:
+            if a != fi.alias and a not in [j[2] for j in joins]:
+                raise Unsupported('scalar sub-select with an unjoined table')
+        main_keys.sort(key=lambda kv: kv[0])
+        return self.lookup(table, resultcol.name, main_keys)
 
     def lookup(self, table: str, resultcol: str, keys: list) -> SV:
-        """(SELECT resultcol FROM table WHERE k1 = a1 AND ...): some row with those key values (the first
-        one SQLite finds; unique when the key is declared or assumed unique)."""
+        """(SELECT resultcol FROM table WHERE k1 = a1 AND (k2 = a2 OR k3 = a3) ...): some row with those key
+        values (the first one SQLite finds; unique when the key is declared or assumed unique).  The row is a
+        canonical uninterpreted function of the key values, so that the code and the specification denote the
+        same row when they look up the same keys."""
         names = [k for k, _ in keys]
-        sorts = [SORTS[self.db.colkind(table, k)] for k in names]
+        flat_names, flat_vals = [], []
+        for k, v in keys:
+            if '|' in k:
+                for kk, vv in zip(k.split('|'), v):
+                    flat_names.append(kk)
+                    flat_vals.append(vv)
+            else:
+                flat_names.append(k)
+                flat_vals.append(v)
+        sorts = [SORTS[self.db.colkind(table, k)] for k in flat_names]
         fname = f'first[{table}.{"+".join(names)}]{self.db.tag}'
         row_f = z3.Function(fname, *sorts, z3.IntSort())
         found_f = z3.Function(fname + '.found', *sorts, z3.BoolSort())
         args = []
-        anynull = []
-        for (k, v), s in zip(keys, sorts):
+        vals = []
+        for k, v, s in zip(flat_names, flat_vals, sorts):
             kind = self.db.colkind(table, k)
+            v = self._as_sql_value(v)
             if v.kind != kind:
                 if v.none is not None and z3.is_true(z3.simplify(v.none)):
-                    v = SV(kind, z3.Const(fresh_name('null'), SORTS[kind]), z3.BoolVal(True))
+                    v = SV(kind, z3.Const(f'null:{kind}', SORTS[kind]), z3.BoolVal(True))
                 else:
                     raise BindError(f'lookup key {table}.{k} ({kind}) compared with a value of kind {v.kind}')
-            args.append(v.z)
-            if v.none is not None:
-                anynull.append(v.none)
+            # NULL never compares equal: normalise the value term so that equal look-ups give equal terms
+            z = z3.If(v.none, z3.Const(f'null:{kind}', SORTS[kind]), v.z) if v.none is not None else v.z
+            args.append(z3.simplify(z))
+            vals.append(v)
         row = row_f(*args)
-        found = z_and(found_f(*args), *[z_not(n) for n in anynull])
-        key = (fname, tuple(a.sexpr() for a in args))
-        # defining axiom (instantiated for these arguments): found => the row is in the table with the keys
+        # a conjunctive key that is NULL can never match
+        conj_null = []
+        i = 0
         eqs = [self.db.in_(table)(row)]
-        for (k, v), a in zip(keys, args):
-            cv = self.db.value(table, k, row)
-            eqs.append(cv.z == a)
-            if cv.none is not None:
-                eqs.append(z3.Not(cv.none))
+        for k, v in keys:
+            group = k.split('|')
+            alts = []
+            for kk in group:
+                val = vals[i]
+                cv = self.db.value(table, kk, row)
+                e = cv.z == val.z
+                if cv.none is not None:
+                    e = z3.And(z3.Not(cv.none), e)
+                if val.none is not None:
+                    e = z3.And(z3.Not(val.none), e)
+                alts.append(e)
+                i += 1
+            if len(group) == 1 and vals[i - 1].none is not None:
+                conj_null.append(vals[i - 1].none)
+            eqs.append(z_or(*alts))
+        found = z_and(found_f(*args), *[z_not(n) for n in conj_null])
+        # defining axioms (instantiated for these arguments)
         self.side.append(z3.Implies(found, z3.And(*eqs)))
+        r = z3.Int('r$lk')
+        eqs_r = [z3.substitute(e, (row, r)) for e in eqs]
+        unique = any(set(u) <= set(flat_names) for u in self.db.schema.table(table).uniques) and \
+            all('|' not in k for k in names)
+        concl = [found_f(*args)]
+        if unique:
+            concl.append(row == r)
+        self.side.append(z3.ForAll([r], z3.Implies(z3.And(*eqs_r), z3.And(*concl)),
+                                   patterns=[self.db.in_(table)(r)]))
         v = self.db.value(table, resultcol, row)
         n = z_or(z_not(found), v.none if v.none is not None else False)
         res = SV(v.kind, v.z, z3.simplify(z_bool(n)))
@@ -626,6 +711,12 @@ class UnknownColumn(Unsupported):
 
 class BindError(Exception):
     """Placeholder / parameter misalignment: a failed obligation (never 'unsupported')."""
+
+
+def flatten_or(e) -> list:
+    if isinstance(e, P.Bin) and e.op == 'OR':
+        return flatten_or(e.left) + flatten_or(e.right)
+    return [e]
 
 
 def flatten_and(e) -> list:
